@@ -136,8 +136,17 @@ func (f *wrappingFetcher) Start(ctx context.Context, prefixes ...keys.Walkable) 
 
 	f.execInfo.Reset()
 
+	// A fetch of given documents (by docID) reads those documents: the secondary index knows nothing of
+	// the docIDs asked for and would yield every document that its filter conditions select.
+	isFetchByDocID := false
+	for _, dsPrefix := range dsPrefixes {
+		if dsPrefix.DocID != "" {
+			isFetchByDocID = true
+		}
+	}
+
 	var top fetcher
-	if f.index.HasValue() {
+	if f.index.HasValue() && !isFetchByDocID {
 		indexFetcher, err := newIndexFetcher(ctx, f.txn, fieldsByID, f.index.Value(), f.filter, f.col,
 			f.docMapper, &f.execInfo, f.ordering)
 		if err != nil {
